@@ -52,8 +52,8 @@ def make(F):
     eng.group_switch = False
     eng.sym_select = False
     eng.int_floats = True
-    eng.max_paths = 4000
-    eng.max_steps = 20000
+    eng.max_paths = 1500
+    eng.max_steps = 6000
     D = DurCtx(F, eng)
     return eng, D
 
@@ -236,7 +236,12 @@ def run_cell(job):
         x, y = a
         lin = e.flt_int(st, x) if isinstance(x, Flt) else None
         if lin is None or not (isinstance(y, Flt) and y.t == ("c", 365.0)):
-            return NotImplemented
+            # the day count is not an exact integer view of decompose's day field (e.g. it went through to_seconds()): outside the
+            # domain in which this rule can decide anything - end the path with an event instead of interpreting float code
+            from ..sym import DIVERGE
+            st.end = "cut"
+            e.event(st, "imprecise", "the day count handed to div_rem_f64 is not an integer-valued double derived from decompose()'s days")
+            return [(st, DIVERGE)]
         el = e.types[dest_tid]["elems"]
         q = e.atom("q(%r)" % (lin,), -(1 << 31), (1 << 31) - 1)
         r = e.atom("r(%r)" % (lin,), 0, 364)
